@@ -26,13 +26,17 @@ def main():
         else:
             o = h.opts
             deep = tier == "thorough"
+            tb = float(os.environ.get("VT_BUDGET_SCALE", "1")) * (o.get("time_budget_thorough", o.get("time_budget", 900)) if deep else o.get("time_budget", 420))
+            dl = float(os.environ.get("VT_DEADLINE", "0") or 0)
+            if dl:
+                tb = max(5.0, min(tb, dl - time.time() - 20))     # leave the explorer time to stop between two paths
             res = H.explore(
                 h,
                 max_paths=o.get("max_paths_thorough", o.get("max_paths", 3000)) if deep else o.get("max_paths", 3000),
                 # VT_BUDGET_SCALE < 1: smoke run of a tier (same harness instances, shorter time boxes)
-                time_budget=float(os.environ.get("VT_BUDGET_SCALE", "1")) * (o.get("time_budget_thorough", o.get("time_budget", 900)) if deep else o.get("time_budget", 420)),
+                time_budget=tb,
                 witness_per_harness=o.get("witnesses", 2),
-                obl_timeout=o.get("obl_timeout", 60000),
+                obl_timeout=(o.get("obl_timeout_thorough", o.get("obl_timeout", 60000)) if deep else o.get("obl_timeout", 60000)),
                 allowed_exc=tuple(o.get("allowed_exc", ())),
             )
     except BaseException as e:  # harness machinery failure: never reported as success
